@@ -27,6 +27,7 @@ class Project(object):
         self._norm_cache = {}  # type: dict[str, list[str]]
         self._module_cache = {}  # type: dict[str, ImportedModule | SourceModule]
         self._context_cache = {}  # type: dict[str, ImportedModule | SourceModule]
+        self._missing = set()  # type: set[str]
         self.dyn_modules = set(dyn_modules or [])
 
     def get_path(self):
@@ -72,11 +73,24 @@ class Project(object):
     def check_changes(self):
         # type: () -> t.Iterator[None]
         self._context_cache.clear()
-        if any(m.changed for m in self._module_cache.values()):
+        if any(m.changed for m in self._module_cache.values()) or self._appeared():
             # cached analyses hold references into each other (star imports,
             # resolved imported names), so a change anywhere drops them all
             self._module_cache.clear()
+            self._missing.clear()
         yield
+
+    def _appeared(self):
+        # type: () -> bool
+        """A module that could not be found when a cached analysis asked for it exists now"""
+        for name in list(self._missing):
+            self._missing.discard(name)
+            try:
+                self.get_module(name)
+            except ImportError:
+                continue
+            return True
+        return False
 
     def get_nmodule(self, name, filename):
         # type: (str, str) -> SourceModule | ImportedModule
@@ -133,6 +147,7 @@ class Project(object):
                 module = SourceModule(self, name, filename)
 
         if not module:
+            self._missing.add(name)
             raise ImportError(name)
 
         self._module_cache[name] = module
